@@ -371,6 +371,36 @@ async fn run_task(
         .into();
     let cancel_rx = handle.cancel_tx.subscribe();
 
+    // Every task stream opens with its spawn frame - also the stream of a task that is refused before it starts.
+    let parsed_args: Result<ShellArgs, serde_json::Error> =
+        serde_json::from_value(payload.args.clone());
+    let (cwd, artifact_max_bytes, max_bytes) = match &parsed_args {
+        Ok(args) => (
+            args.cwd.clone(),
+            args.artifact_max_bytes.unwrap_or(config.artifact_max_bytes),
+            args.max_bytes.unwrap_or(config.max_bytes),
+        ),
+        Err(_) => (None, config.artifact_max_bytes, config.max_bytes),
+    };
+
+    let spawn_time_ms = now_ms();
+    emitter
+        .emit(EventKind::ToolTaskSpawned {
+            task_id: handle.task_id.clone(),
+            tool_name: payload.tool.clone(),
+            args: payload.args.clone(),
+            cwd,
+            title: payload.title.clone(),
+            execution_mode,
+            origin_session_id: payload.origin_session_id.clone(),
+            artifacts: Some(json!({
+                "logs": handle.logs.refs_json(),
+                "artifact_max_bytes": artifact_max_bytes,
+                "max_bytes": max_bytes,
+            })),
+        })
+        .await;
+
     if payload.tool != "bash" && payload.tool != "shell" {
         fail_task(
             &handle,
@@ -382,7 +412,7 @@ async fn run_task(
         return;
     }
 
-    let args: ShellArgs = match serde_json::from_value(payload.args.clone()) {
+    let args: ShellArgs = match parsed_args {
         Ok(args) => args,
         Err(err) => {
             fail_task(&handle, &emitter, format!("invalid args: {err}")).await;
@@ -390,9 +420,6 @@ async fn run_task(
             return;
         }
     };
-
-    let artifact_max_bytes = args.artifact_max_bytes.unwrap_or(config.artifact_max_bytes);
-    let max_bytes = args.max_bytes.unwrap_or(config.max_bytes);
 
     if tokio::fs::create_dir_all(config.artifacts_blobs_dir())
         .await
@@ -407,24 +434,6 @@ async fn run_task(
         finalize_snapshot(&handle, &snapshot_dir).await;
         return;
     }
-
-    let spawn_time_ms = now_ms();
-    emitter
-        .emit(EventKind::ToolTaskSpawned {
-            task_id: handle.task_id.clone(),
-            tool_name: payload.tool.clone(),
-            args: payload.args.clone(),
-            cwd: args.cwd.clone(),
-            title: payload.title.clone(),
-            execution_mode,
-            origin_session_id: payload.origin_session_id.clone(),
-            artifacts: Some(json!({
-                "logs": handle.logs.refs_json(),
-                "artifact_max_bytes": artifact_max_bytes,
-                "max_bytes": max_bytes,
-            })),
-        })
-        .await;
 
     let _workspace_guard = workspace_lock.acquire().await;
     match execution_mode {
